@@ -221,6 +221,12 @@ def finishCase (c : Case) : List String :=
   let props :=
     if c.corrOnly then []
     else (Pyrtma.Mgr.Spec.checkAll c.cfg rounds oev c.crash).map (fun p => s!"{c.id} PROP {p.1} {p.2}")
+  -- the Spec evaluated on the *model's own* run of the same script (a test of `model ⊨ Spec`, not a theorem): a clause
+  -- the model violates means the Spec or the model is wrong, whatever the implementation did
+  let specModel :=
+    if c.corrOnly || c.propOnly then []
+    else (Pyrtma.Mgr.Spec.checkAll c.cfg rounds mev (ms.crashed)).filterMap (fun p =>
+      if p.2 == "ok" then none else some s!"{c.id} CORR {p.1} diff the Spec rejects the model's own run: {p.2}")
   -- `MODE dump`: additionally print both event streams of the first round that differs (debugging aid)
   let dump :=
     if !c.dump then []
@@ -230,7 +236,7 @@ def finishCase (c : Case) : List String :=
       let idx := ((List.zip m o).takeWhile (fun p => p.1 == p.2)).length
       (m.getD idx []).map (fun e => s!"{c.id} DUMP model round {idx}: {e}") ++
       (o.getD idx []).map (fun e => s!"{c.id} DUMP impl  round {idx}: {e}")
-  corr ++ props ++ dump
+  corr ++ specModel ++ props ++ dump
 
 def step (c : Case) (line : String) : Case × List String :=
   match toks line with
